@@ -430,7 +430,6 @@ pub fn run_real(ctx: &Ctx, rep: &mut Report) {
 
 /// One single `update` call with a slice longer than `u32::MAX` bytes.
 pub fn run_huge_slice(ctx: &Ctx, rep: &mut Report) {
-    let _ = ctx;
     rep.rule = "one single update() call with a zero-filled slice of 2^32 + 10 bytes (the length does not fit u32) per variant; processed_len must be None, finalize TooLargeInput, no panic; then the same generator is fed more data".into();
     fn one<V: Variant>(data: &[u8], rep: &mut Report) {
         let r = guard(|| {
@@ -464,10 +463,19 @@ pub fn run_huge_slice(ctx: &Ctx, rep: &mut Report) {
         }
         rep.count("huge_slices", 1);
     }
-    let data = vec![0u8; (TWO32 + 10) as usize];
-    all_variants!(one, &data, rep);
+    let data = vec![0u8; (TWO32 + 1000) as usize];
+    if ctx.thorough() {
+        all_variants!(one, &data, rep);
+        rep.floor("huge_slices", 5);
+    } else {
+        // quick tier: one variant (about 25 s of hashing)
+        match ctx.shard % 2 {
+            0 => one::<crate::variant::VNormal>(&data, rep),
+            _ => one::<crate::variant::VShort>(&data, rep),
+        }
+        rep.floor("huge_slices", 1);
+    }
     rep.sample(Json::obj().with("slice_len", data.len() as u64));
-    rep.floor("huge_slices", 5);
 }
 
 fn replay_one<V: Variant>(name: &str, st: &GeneratorState, pieces: &[usize], seed: u64, rep: &mut Report) {
